@@ -3,6 +3,7 @@ package c01
 import (
 	"fmt"
 	"regexp"
+	"sort"
 	"strings"
 
 	"github.com/hashicorp/hcl/v2"
@@ -62,7 +63,7 @@ func run(cx *lib.Ctx) {
 	for i := 0; i < n; i++ {
 		r := cx.R.Fork()
 		mode := r.Intn(10)
-		sc := GenScope(r, mode == 7 || mode == 8, mode == 8 || mode == 9)
+		sc := GenScope(r, mode >= 5 && mode <= 7, mode >= 7)
 		g := &TypedGen{R: r, S: sc, Stats: stats}
 		tree := g.Gen("any", 2+r.Intn(3))
 		one(cx, r, tree, sc, i < 4)
@@ -140,6 +141,52 @@ func one(cx *lib.Ctx, r *lib.Rand, tree *lib.Node, sc *Scope, sample bool) {
 	if !okx {
 		res.Count("model-unsupported-input")
 		return
+	}
+	// VARS: the model's free variables vs the roots reported by Variables()
+	{
+		seen := map[string]bool{}
+		var roots []string
+		for _, tr := range e0.Variables() {
+			if n := tr.RootName(); !seen[n] {
+				seen[n] = true
+				roots = append(roots, n)
+			}
+		}
+		sort.Strings(roots)
+		for i, n := range roots {
+			roots[i] = lib.Hex(n)
+		}
+		want := cx.Ask("VARS " + sx)
+		res.CorrChecked++
+		if got := strings.Join(roots, " "); got != want {
+			res.Fail(lib.Failure{Kind: "corr", Key: "VARS", Desc: "root names reported by Variables() differ from the model's fv", Input: input, Model: want, Impl: got})
+		}
+	}
+	// self-tests of the theorem statements on the executable model (strict configuration)
+	hasMark, hasUnk := false, false
+	for _, f := range sc.Flags {
+		if f == "marked" || f == "marked-nested" {
+			hasMark = true
+		}
+		if f == "unknown" || f == "dyn" {
+			hasUnk = true
+		}
+	}
+	if hasMark {
+		v2 := sc.Variant(r)
+		a := cx.Ask("NI " + sx + " " + EnvSexp(sc.Vars) + " " + EnvSexp(v2.Vars))
+		res.Count("model-NI:" + strings.SplitN(a, " ", 2)[0])
+		if strings.HasPrefix(a, "VIOLATION") {
+			res.Fail(lib.Failure{Kind: "corr", Key: "MODEL-NI", Desc: "the executable model violates the noninterference statement (theorem C06 would be false)", Input: input + "\n-- scope2: " + EnvSexp(v2.Vars), Model: a})
+		}
+	}
+	if hasUnk {
+		cc := sc.Concrete()
+		a := cx.Ask("CONC " + sx + " " + EnvSexp(cc.Vars) + " " + EnvSexp(sc.Vars))
+		res.Count("model-CONC:" + strings.SplitN(a, " ", 2)[0])
+		if strings.HasPrefix(a, "VIOLATION") {
+			res.Fail(lib.Failure{Kind: "corr", Key: "MODEL-CONC", Desc: "the executable model violates the abstraction-soundness statement (theorem C05 would be false)", Input: input + "\n-- concrete: " + EnvSexp(cc.Vars), Model: a})
+		}
 	}
 	ans := cx.Ask("EVAL " + sx + " " + EnvSexp(sc.Vars))
 	mval, mstatus := splitDump(ans)
